@@ -1040,9 +1040,10 @@ def _mk(op, a, b, f):
     # a difference compared with zero is the comparison of its operands: `round(x - y, p) <= 0` is `x <= y` (within p)
     if op in ('lt', 'le', 'eq', 'ne'):
         def diff(e):
-            e = strip_refs(e)
+            # only a difference written in the test itself: a named difference (`required = target - present`) keeps its
+            # identity, rules about the sign of that very variable read the fact as it stands
             if isinstance(e, ast.Call) and isinstance(e.func, ast.Name) and e.func.id == 'round' and e.args:
-                e = strip_refs(e.args[0])
+                e = e.args[0]
             return e if isinstance(e, ast.BinOp) and isinstance(e.op, ast.Sub) else None
 
         def zero(e):
